@@ -1,7 +1,7 @@
 -------------------------- MODULE GroupReportTrace --------------------------
 (* C09, RPC layer: group-trigger requests issued through the real SourceControl methods on a running source.
      GBegin  scen, nchan
-     GReq    op (add | del | stop), pairs <<source, receiver>>..., ok, reported (pairs of the LATEST GROUPTRIGGER update any
+     GReq    op (add | del | stop | fb2err | err2fb | none | restart), pairs <<source, receiver>>..., ok, reported (pairs of the LATEST GROUPTRIGGER update any
              client has been sent), actual (pairs the broker uses after the request), nreports
    Expected set (the property's set-theoretic result): add = union with the pairs that are in range and not self-connections,
    del = difference, stop = empty.  A request that carries an out-of-range index may either apply its valid pairs (what the
@@ -18,7 +18,15 @@ Set(ps) == {<<ps[i][1], ps[i][2]>> : i \in 1..Len(ps)}
 InRange(p) == p[1] >= 0 /\ p[1] < nchan /\ p[2] >= 0 /\ p[2] < nchan
 Valid(ps) == {p \in Set(ps) : InRange(p) /\ p[1] # p[2]}
 AllFine(ps) == \A p \in Set(ps) : InRange(p)
-Full(e) == IF e.op = "add" THEN conn \cup Valid(e.pairs) ELSE IF e.op = "del" THEN conn \ Set(e.pairs) ELSE {}
+\* error/feedback coupling (Lancero): channels 2k (error) and 2k+1 (feedback) of every pixel
+ErrP == {<<2 * k, 2 * k + 1>> : k \in 0..((nchan \div 2) - 1)}       \* error -> feedback
+FbP == {<<2 * k + 1, 2 * k>> : k \in 0..((nchan \div 2) - 1)}        \* feedback -> error
+Full(e) == CASE e.op = "add" -> conn \cup Valid(e.pairs)
+             [] e.op = "del" -> conn \ Set(e.pairs)
+             [] e.op = "fb2err" -> (conn \ ErrP) \cup FbP
+             [] e.op = "err2fb" -> (conn \ FbP) \cup ErrP
+             [] e.op = "none" -> conn \ (ErrP \cup FbP)
+             [] OTHER -> {}                                            \* stop, restart (a fresh broker)
 Allowed(e) == IF AllFine(e.pairs) THEN {Full(e)} ELSE {Full(e), conn}
 Step ==
   /\ l <= Len(Log) /\ l' = l + 1
